@@ -1,8 +1,8 @@
 #!/verif/.venv/bin/python
 # Replay of a solver counterexample against the unmodified code (no shims).
-# property=C04 kernel=roundtrip label=abstract:same_static_parts
+# property=C04 kernel=param label=abstract:built_identical_timeline
 import sys
-sys.path[:0] = ["/repo/pulser-core", "/repo/pulser-simulation", "/verif"]
+sys.path[:0] = ['/repo' + "/pulser-core", '/repo' + "/pulser-simulation", "/verif"]
 from symx.replay import replay
-sys.exit(replay(check='checks.c04', kernel='roundtrip', shape={'program': 'dmm', 'codec': 'abstract'},
-                assignment={'w0': '0/1', 'a0': '1/1024', 'd0': -200000000, 'e0': -99999776, 'e1': -49999900}, label='abstract:same_static_parts'))
+sys.exit(replay(check='checks.c04', kernel='param', shape={'program': 'mappable_shift_all', 'codec': 'abstract'},
+                assignment={'v_a0': '513/1024'}, label='abstract:built_identical_timeline'))
